@@ -22,6 +22,13 @@ type propCfg struct {
 var propOrder = []string{"C03", "C04", "C05", "C06", "C07", "C08", "C09", "C10", "C11", "C12", "C14", "C15", "C16", "C17", "C18", "C19"}
 
 var props = map[string]propCfg{
+	"C19": {
+		level: "exploration",
+		rule: "each run: a session of 1-3 steps, each with 1-3 expected outputs (constant and variable patterns, guards that accept, reject, or test the bound value) and optionally an inverted output, step timeouts 300 ms / 1 s / default 2 s; the simulated child answers each input with the ideal lines for that step after one stream fault (none, duplicate, drop, duplicate-in-place-of-dropped, reorder, delayed past the timeout, noise and unrelated JSON, forbidden line before the last required one, value rejected by the guard, guard rejecting everything); Session.Run runs for real on the simulated clock under the serial scheduler; distinct = distinct (outputs, fault) shapes x verdict",
+		parts: []part{{name: "", engine: "expect", race: false, quick: 1500, thorough: 100000}},
+		comps: []string{"real: tools/expect Session.Run (reader, writer and timer goroutines, matching, guard compilation and execution) - instrumented copy with exec.Command replaced by simexec.Command", "stub: the child process (scripted goroutine over io.Pipes)", "simulated: clock, goroutine scheduling, the child's output stream and its faults"},
+		assum: []string{"the oracle asserts necessary conditions for a pass (strict direction) and that a never-arriving expected message ends in an error rather than a hang; it does not assert that the tool passes whenever it could"},
+	},
 	"C03": {
 		level: "exploration",
 		rule: "order: one (pattern, message, bindings) triple per run from a grammar biased to order-sensitive shapes (one variable at several keys with structured values that partially match each other, property variables with siblings nested beside a merely failing key, arrays with one variable among structured and scalar members, optional and inequality variables, pre-bound variables); every map iteration inside match.go is permuted independently - all combinations enumerated depth-first up to 96 per triple, 12 tape-sampled ones beyond; arguments snapshotted (canonical JSON + container identity), results mutated; concurrent: 2-6 tasks x 1-3 calls on the same objects under the serial scheduler with the race monitor; distinct = distinct triples (x schedule hash); non-trivial = at least two iteration orders / at least one scheduling choice",
